@@ -97,7 +97,7 @@ def run_prefix(prefix: dict | None) -> None:
     """Re-execute the scenarios that ran earlier in the same interpreter (for history-dependent violations)."""
     if not prefix or not prefix.get("ids"):
         return
-    if prefix["prop"] in ("C14", "C02"):
+    if prefix["prop"] in ("C14", "C02", "C04"):
         import gen
         from graphsim import run_case
 
@@ -142,7 +142,7 @@ def main() -> None:
         return
     with open(args["out"], "w") as out:
         if mode == "regen":
-            if args["prop"] in ("C14", "C02"):
+            if args["prop"] in ("C14", "C02", "C04"):
                 import gen
                 from graphsim import explicit_case, run_case
 
@@ -160,7 +160,7 @@ def main() -> None:
                 res = c11sim.run_one_case(case)
                 out.write(json.dumps({"t": "regen", "case": case, "xv": res["xv"], "xd": res["xd"]}) + "\n")
         elif mode == "run":
-            if args["prop"] in ("C14", "C02"):
+            if args["prop"] in ("C14", "C02", "C04"):
                 run_graph_range(args, out)
             else:
                 import c11sim
@@ -170,7 +170,7 @@ def main() -> None:
             doc = json.load(open(args["file"]))
             case = doc["case"]
             run_prefix(doc.get("prefix"))
-            if case["prop"] in ("C14", "C02"):
+            if case["prop"] in ("C14", "C02", "C04"):
                 from graphsim import run_case
 
                 cr = run_case(case, explicit=True)
@@ -183,7 +183,7 @@ def main() -> None:
         elif mode == "minimise":
             doc = json.load(open(args["file"]))
             case = doc["case"]
-            if case["prop"] in ("C14", "C02"):
+            if case["prop"] in ("C14", "C02", "C04"):
                 from minimise import minimise
 
                 small, info = minimise(case, args["sig"], args.get("max_runs", 400))
